@@ -39,6 +39,7 @@ func runC16(c *Ctx) {
 	rulePositiveAfterCallback(c) // every recipient the client was told "250" for was handed to the backend
 	R.Rule("R-client-parse", "E4 + who-may-call", "the verdict Close returns is the server's reply converted by readResponse/toSMTPErr: code, enhanced code and the text with the per-line code repetitions removed", 4)
 	ruleClientParse(c)
+	ruleClientDeadlinesPaired(c)
 	ruleEnhDefault(c) // every line of the verdict carries the same (possibly defaulted) enhanced code
 
 	R.Rule("R-data-writer", "E4 value flow", "Data/LMTPData return a dataCloser around c.text.DotWriter() obtained on the nil-error edge of the DATA command expecting 354", 4)
@@ -175,4 +176,90 @@ func runC16(c *Ctx) {
 		})
 		R.Ob("(*Client).SendMail/returns Close's verdict", c.P.Pos(f.Pos()), last, "SendMail does not return the result of the data writer's Close")
 	}
+}
+
+// ruleClientDeadlinesPaired (C16): every deadline the client arms for one exchange is cleared again when that exchange
+// is over, in both directions. The message body is written between two exchanges (after the 354, before Close arms
+// the submission timeout) with no deadline of its own: a write deadline left behind by the DATA command makes a body
+// that takes longer than CommandTimeout fail with a local i/o timeout instead of reaching the server.
+func ruleClientDeadlinesPaired(c *Ctx) {
+	R := c.R
+	R.Rule("R-cdeadline-paired", "E2 pairing (arm / deferred clear)", "in the client every SetDeadline/SetReadDeadline/SetWriteDeadline with a time is paired with a deferred call that clears the same direction(s) with the zero time", 3)
+	dir := func(name string) (rd, wr bool) {
+		switch name {
+		case "SetDeadline":
+			return true, true
+		case "SetReadDeadline":
+			return true, false
+		case "SetWriteDeadline":
+			return false, true
+		}
+		return false, false
+	}
+	n := 0
+	for _, f := range c.P.AllFuncs() {
+		fn := funcName(f)
+		if !inSmtp(f) || !(strings.HasPrefix(fn, "(*Client).") || strings.HasPrefix(fn, "(*dataCloser).")) {
+			continue
+		}
+		type arm struct {
+			in     ssa.Instruction
+			rd, wr bool
+		}
+		var arms []arm
+		clrR, clrW := false, false
+		allInstrs(f, func(in ssa.Instruction) {
+			cc := callCommon(in)
+			if d, isDefer := in.(*ssa.Defer); isDefer && cc != nil && !cc.IsInvoke() {
+				// defer func() { ...SetDeadline(time.Time{})... }()
+				if g := staticCallee(&d.Call); g != nil && inSmtp(g) {
+					allInstrs(g, func(x ssa.Instruction) {
+						xc := callCommon(x)
+						if xc == nil || !xc.IsInvoke() || len(xc.Args) != 1 {
+							return
+						}
+						if k, ok := stripConv(xc.Args[0]).(*ssa.Const); ok && k.Value == nil {
+							rd, wr := dir(xc.Method.Name())
+							clrR, clrW = clrR || rd, clrW || wr
+						}
+					})
+				}
+				return
+			}
+			if cc == nil || !cc.IsInvoke() || len(cc.Args) != 1 {
+				return
+			}
+			rd, wr := dir(cc.Method.Name())
+			if !rd && !wr {
+				return
+			}
+			zero := false
+			if k, ok := stripConv(cc.Args[0]).(*ssa.Const); ok && k.Value == nil {
+				zero = true
+			}
+			_, deferred := in.(*ssa.Defer)
+			switch {
+			case zero && deferred:
+				clrR, clrW = clrR || rd, clrW || wr
+			case zero:
+				// an immediate clear arms nothing
+			default:
+				arms = append(arms, arm{in, rd, wr})
+			}
+		})
+		for _, a := range arms {
+			n++
+			ok := (!a.rd || clrR) && (!a.wr || clrW)
+			var missing []string
+			if a.rd && !clrR {
+				missing = append(missing, "read")
+			}
+			if a.wr && !clrW {
+				missing = append(missing, "write")
+			}
+			R.Ob(c.siteKey(a.in, "armed deadline is cleared by a deferred call"), c.P.InstrPos(a.in), ok,
+				fmt.Sprintf("%s arms a deadline but no deferred call clears the %s deadline: it stays in force after the exchange — a message body written later than that (slow producer, large message) fails locally with an i/o timeout", fn, strings.Join(missing, " and ")))
+		}
+	}
+	R.Ob("client/armed deadlines found", "-", n >= 3, fmt.Sprintf("%d armed deadlines found in the client", n))
 }
